@@ -108,6 +108,21 @@ definition.  Every rule preserves results, exceptions and evaluation order:
   sets  ``x in <module-level / class-level set or frozenset of str / int constants>`` -> ``PyRt.contains_set`` on the members in
         sorted order (hoisting an inline display into a named constant; iteration order of a set is unobservable through ``in``)
   names renaming a local is invisible already: Lean's ``do`` notation orders the state of a loop by declaration, not by name
+Eighth round (x8; blocks marked `x8`), further normalisations and subset additions, same conditions (results, exceptions,
+evaluation order preserved):
+  N5+ the spliced helper may have *early returns*: ``if c: …; return a`` followed by ``rest`` is read as ``if c: … return a`` /
+      ``else: rest`` (``_x8_tailify``) until every ``return`` is in tail position — none inside a loop / ``try`` / ``with``, no path
+      that falls off the end — and each tail ``return e`` becomes the caller's statement with ``e``; statement forms added:
+      ``raise _h(a)`` and ``xs.append(_h(a))`` (``xs`` a list built in the caller); a ``with`` block without ``as`` and without
+      ``return`` inside may be part of the helper
+  N8  in ``__init__``: ``v = K.__new__(K); v.a = e; self.f = v`` (``v`` used nowhere else) -> ``self.f = K.__new__(K); self.f.a = e``
+  N9  a bare ``self.f: T`` (annotation without value) in a method executes nothing: dropped
+  N10 ``for x in <tuple of ≤ 8 str/int constants, display or module-level>: if c(x): B(x); break`` + ``else: E`` -> the chain
+      ``if c(k1): B(k1) elif … else: E`` (``x`` used only inside the loop, no other ``break`` / ``continue``)
+  ``x in NAMED_SET`` / ``not in`` also in expression position (``return a and x in S``); ``frozenset(K(t) for t in … [if …])``
+  makes the members instances of ``K`` exactly like ``frozenset(map(K, …))`` (class inference of set fields);
+  ``<module-level pattern>.fullmatch(x)`` / ``.match(x)`` in ``parse_wheel_filename`` is the pattern ``names.py`` measures
+  (``Gen.NameTables.wheelName*``: one atom under ``*``; with ``fullmatch`` the anchors are optional)
 Subset additions of x4: list / tuple displays with starred elements (``[*a, x, *b]``: unpacked left to right into a fresh
 list), oracle methods on a local bound once by an oracle constructor (``p = pathlib.PurePosixPath(x)`` … ``p.is_absolute()``),
 ``TABLE[k](a, b)`` and ``k in TABLE`` on a module-level table of callables, ``x = None`` sentinels next to the one binding that
@@ -571,6 +586,16 @@ CONSUMERS |= {"iter"}
 CONSUMERS |= {"map"}
 # member classes whose `__hash__` is Python code that can raise: building a set of them evaluates it for every element
 X5_HASHED_MEMBERS = {("packaging.specifiers", "Specifier")}
+
+
+def _x8_comp_ctor(a):
+    """x8: the name K when `a` is a generator expression / list comprehension over one `for` whose element is the direct
+    constructor call `K(…)` (the members of `frozenset(a)` are then instances of K, as with `map(K, …)`); else None"""
+    if isinstance(a, (ast.GeneratorExp, ast.ListComp)) and len(a.generators) == 1 and not a.generators[0].is_async \
+            and isinstance(a.elt, ast.Call) and isinstance(a.elt.func, ast.Name):
+        bound = {t.id for t in ast.walk(a.generators[0].target) if isinstance(t, ast.Name)}
+        return None if a.elt.func.id in bound else a.elt.func.id
+    return None
 # --- x5 end -----------------------------------------------------------------------------------------------------------
 # --- x6: sixth round (platform remainder, C16; run-time additions in lean/PkgModel/PyPlat.lean, PyElf.lean) --------------
 SELECTED += [
@@ -883,6 +908,35 @@ def _inlinable_helper(name, globs, caller_name):
     return _helper_node(f, name)
 
 
+def _x8_tailify(stmts):
+    """x8: the statement list with every `return` in tail position — `if c: A` (A does not fall through) followed by `rest`
+    becomes `if c: A else: rest`, recursively — or None when that is not possible (a `return` inside a loop / `try` / `with`,
+    a path that falls off the end, a bare `return`).  The result's last statement is a `return e` or an `if` both of whose
+    branches are such lists or end in `raise`."""
+    def has_ret(x):
+        return any(isinstance(n, ast.Return) for n in ast.walk(x))
+    out = []
+    for i, st in enumerate(stmts):
+        rest = stmts[i + 1:]
+        if isinstance(st, ast.Return):
+            return out + [st] if st.value is not None else None          # what follows is dead
+        if isinstance(st, ast.Raise):
+            return out + [st]
+        if isinstance(st, ast.If) and (has_ret(st) or not _falls_through([st])):
+            b_ft, e_ft = _falls_through(st.body), (_falls_through(st.orelse) if st.orelse else True)
+            if b_ft and e_ft:
+                return None                                   # a `return` somewhere inside, yet both arms go on
+            body = _x8_tailify(st.body + (rest if b_ft else []))
+            orelse = _x8_tailify(st.orelse + (rest if e_ft else []))
+            if body is None or orelse is None:
+                return None
+            return out + [ast.copy_location(ast.If(test=st.test, body=body, orelse=orelse), st)]
+        if has_ret(st):
+            return None
+        out.append(st)
+    return None                                               # falls off the end: an implicit `return None`
+
+
 def _helper_node(f, name):
     try:
         node = ast.parse(textwrap.dedent(inspect.getsource(f))).body[0]
@@ -896,11 +950,22 @@ def _helper_node(f, name):
     body = list(node.body)
     if body and isinstance(body[0], ast.Expr) and isinstance(body[0].value, ast.Constant) and isinstance(body[0].value.value, str):
         body = body[1:]
-    if not body or not isinstance(body[-1], ast.Return) or body[-1].value is None:
+    if not body:
         return None
-    for n in ast.walk(ast.Module(body=body[:-1], type_ignores=[])):
-        if isinstance(n, (ast.Return, ast.Yield, ast.YieldFrom, ast.Global, ast.Nonlocal, ast.FunctionDef, ast.ClassDef,
-                          ast.Lambda, ast.AsyncFunctionDef, ast.Await, ast.Try, ast.With)):
+    if not isinstance(body[-1], ast.Return) or body[-1].value is None \
+            or any(isinstance(n, ast.Return) for n in ast.walk(ast.Module(body=body[:-1], type_ignores=[]))):
+        # x8: early returns — accepted when `if c: …return` / rest  ≡  `if c: …return` / `else: rest` brings every `return`
+        # into tail position (none inside a loop), see `_x8_tailify`
+        body = _x8_tailify(body)
+        if body is None:
+            return None
+    for n in ast.walk(ast.Module(body=body, type_ignores=[])):
+        if isinstance(n, (ast.Yield, ast.YieldFrom, ast.Global, ast.Nonlocal, ast.FunctionDef, ast.ClassDef,
+                          ast.Lambda, ast.AsyncFunctionDef, ast.Await, ast.Try)):
+            return None
+        # x8: a `with` block is spliced like any other statement when it binds no name (`as`) and holds no `return`
+        if isinstance(n, ast.With) and (any(i.optional_vars is not None for i in n.items)
+                                        or any(isinstance(x, ast.Return) for x in ast.walk(n))):
             return None
     for n in ast.walk(node):
         if isinstance(n, ast.Call) and isinstance(n.func, ast.Name) and n.func.id == name:
@@ -938,8 +1003,17 @@ def _inline_helpers(fn, globs, counter=None, depth=0, owner=None):
             return st.value, lambda e: ast.copy_location(ast.AnnAssign(target=st.target, annotation=st.annotation, value=e, simple=st.simple), st)
         if isinstance(st, ast.Return) and isinstance(st.value, ast.Call):
             return st.value, lambda e: ast.copy_location(ast.Return(value=e), st)
+        if isinstance(st, ast.Expr) and isinstance(st.value, ast.Call) and isinstance(st.value.func, ast.Attribute) \
+                and st.value.func.attr == "append" and isinstance(st.value.func.value, ast.Name) and len(st.value.args) == 1 \
+                and not st.value.keywords and isinstance(st.value.args[0], ast.Call) \
+                and _always_fresh_list(fn, st.value.func.value.id):
+            # x8: `xs.append(_h(…))`, xs a list built here (looking `append` up cannot fail or run code)
+            return st.value.args[0], lambda e: ast.copy_location(ast.Expr(value=ast.Call(
+                func=st.value.func, args=[e], keywords=[])), st)
         if isinstance(st, ast.Expr) and isinstance(st.value, ast.Call):
             return st.value, lambda e: ast.copy_location(ast.Expr(value=e), st)
+        if isinstance(st, ast.Raise) and isinstance(st.exc, ast.Call) and st.cause is None:      # x8: `raise _h(…)`
+            return st.exc, lambda e: ast.copy_location(ast.Raise(exc=e, cause=None), st)
         return None, None
 
     assigned_in_caller = {n for s in _walk_scope(fn.body) for n in _targets_of(s)}
@@ -1002,8 +1076,14 @@ def _inline_helpers(fn, globs, counter=None, depth=0, owner=None):
         for v in (assigned | loopvars) - set(params):
             mapping[v] = tag + v
         body = [_Renamer(mapping).visit(copy.deepcopy(s)) for s in h.body]
-        ret = body.pop()
-        out = pre + body + [rebuild(ret.value)]
+        def retarget(stmts):                                   # x8: every tail `return e` becomes the statement with `e`
+            last = stmts[-1]
+            if isinstance(last, ast.Return):
+                return stmts[:-1] + [copy.deepcopy(rebuild(last.value))]
+            if isinstance(last, ast.If):
+                last.body, last.orelse = retarget(last.body), retarget(last.orelse)
+            return stmts
+        out = pre + retarget(body)
         for s in out:
             for n in ast.walk(s):
                 ast.copy_location(n, st) if not hasattr(n, "lineno") else None
@@ -1031,10 +1111,148 @@ def _inline_helpers(fn, globs, counter=None, depth=0, owner=None):
     return fn
 
 
+def _x8_fold_fresh_object(fn):
+    """N8 (x8): inside `__init__`, in one block,
+        v = K.__new__(K); v.a = e; self.f = v          (v a local bound only there and used nowhere else, e without v)
+    becomes
+        self.f = K.__new__(K); self.f.a = e
+    — the spelling the x5 subset has (`x5_nested_store`).  The object is not reachable before `__init__` returns, and an
+    exception raised by `e` leaves `__init__` in both spellings, so storing the empty object first is not observable."""
+    if fn.name != "__init__" or not fn.args.args:
+        return fn
+    me = fn.args.args[0].arg
+    uses = {}
+    for n in ast.walk(fn):
+        if isinstance(n, ast.Name):
+            uses[n.id] = uses.get(n.id, 0) + 1
+    def is_new(v):
+        return isinstance(v, ast.Call) and isinstance(v.func, ast.Attribute) and v.func.attr == "__new__" \
+            and isinstance(v.func.value, ast.Name) and len(v.args) == 1 and not v.keywords \
+            and isinstance(v.args[0], ast.Name) and v.args[0].id == v.func.value.id
+    def fold(stmts):
+        out, i = [], 0
+        while i < len(stmts):
+            a = stmts[i]
+            if i + 2 < len(stmts) and isinstance(a, ast.Assign) and len(a.targets) == 1 and isinstance(a.targets[0], ast.Name) \
+                    and is_new(a.value):
+                v = a.targets[0].id
+                b, c = stmts[i + 1], stmts[i + 2]
+                if v != me and v not in [x.arg for x in fn.args.args + fn.args.kwonlyargs] and uses.get(v) == 3 \
+                        and isinstance(b, ast.Assign) and len(b.targets) == 1 and isinstance(b.targets[0], ast.Attribute) \
+                        and isinstance(b.targets[0].value, ast.Name) and b.targets[0].value.id == v \
+                        and not any(isinstance(x, ast.Name) and x.id == v for x in ast.walk(b.value)) \
+                        and isinstance(c, ast.Assign) and len(c.targets) == 1 and isinstance(c.targets[0], ast.Attribute) \
+                        and isinstance(c.targets[0].value, ast.Name) and c.targets[0].value.id == me \
+                        and isinstance(c.value, ast.Name) and c.value.id == v:
+                    f = c.targets[0].attr
+                    s1 = ast.copy_location(ast.Assign(
+                        targets=[ast.Attribute(value=ast.Name(id=me, ctx=ast.Load()), attr=f, ctx=ast.Store())],
+                        value=a.value, type_comment=None), a)
+                    s2 = ast.copy_location(ast.Assign(
+                        targets=[ast.Attribute(value=ast.Attribute(value=ast.Name(id=me, ctx=ast.Load()), attr=f, ctx=ast.Load()),
+                                               attr=b.targets[0].attr, ctx=ast.Store())],
+                        value=b.value, type_comment=None), b)
+                    out += [s1, s2]
+                    i += 3
+                    continue
+            for fld in ("body", "orelse", "finalbody"):
+                if isinstance(getattr(a, fld, None), list) and not isinstance(a, (ast.FunctionDef, ast.ClassDef, ast.Lambda)):
+                    setattr(a, fld, fold(getattr(a, fld)))
+            for h in getattr(a, "handlers", []) or []:
+                h.body = fold(h.body)
+            out.append(a)
+            i += 1
+        return out
+    fn.body = fold(fn.body)
+    # N9 (x8): a bare `self.f: T` (annotation without a value) executes nothing inside a function: dropped
+    class _DropBare(ast.NodeTransformer):
+        def visit_AnnAssign(self, node):
+            if node.value is None and isinstance(node.target, ast.Attribute) and isinstance(node.target.value, ast.Name) \
+                    and node.target.value.id == me:
+                return ast.copy_location(ast.Pass(), node)
+            return node
+        def visit_FunctionDef(self, node):
+            return node if node is not fn else self.generic_visit(node)
+        def visit_Lambda(self, node):
+            return node
+    fn = _DropBare().visit(fn)
+    return fn
+
+
+def _x8_unroll_for_else(fn, globs):
+    """N10 (x8): `for x in <constant tuple>: if c(x): B(x); break` + `else: E` is the chain
+    `if c(k1): B(k1) elif c(k2): B(k2) … else: E` — the loop over a short tuple of str / int constants (a display, or a
+    module-level tuple no local shadows) is unrolled when its body is that single `if` ending in `break`, `B` holds no other
+    `break` / `continue`, and the loop variable is a plain name used only inside the loop and never rebound there."""
+    import copy
+    caller_locals = {n for s_ in _walk_scope(fn.body) for n in _targets_of(s_)} | {a.arg for a in fn.args.args + fn.args.kwonlyargs}
+    for_targets = {}
+    for n in ast.walk(fn):
+        if isinstance(n, (ast.For, ast.comprehension)):
+            for t in ast.walk(n.target):
+                if isinstance(t, ast.Name):
+                    for_targets[t.id] = for_targets.get(t.id, 0) + 1
+
+    def constants(it):
+        if isinstance(it, ast.Tuple) and all(isinstance(x, ast.Constant) for x in it.elts):
+            vals = [x.value for x in it.elts]
+        elif isinstance(it, ast.Name) and it.id not in caller_locals and it.id not in for_targets \
+                and isinstance((globs or {}).get(it.id), tuple):
+            vals = list(globs[it.id])
+        else:
+            return None
+        if not 1 <= len(vals) <= 8 or not all(type(v) in (str, int) for v in vals):
+            return None
+        return vals
+
+    def unroll(st):
+        if not (isinstance(st, ast.For) and st.orelse and isinstance(st.target, ast.Name) and len(st.body) == 1
+                and isinstance(st.body[0], ast.If) and not st.body[0].orelse and st.body[0].body
+                and isinstance(st.body[0].body[-1], ast.Break)):
+            return None
+        x = st.target.id
+        vals = constants(st.iter)
+        inner = st.body[0]
+        B = inner.body[:-1]
+        if vals is None or not B or x in caller_locals or for_targets.get(x, 0) != 1:
+            return None
+        if any(isinstance(n, (ast.Break, ast.Continue, ast.Return.__class__)) and isinstance(n, (ast.Break, ast.Continue))
+               for b in B for n in ast.walk(b)):
+            return None
+        inside = {id(n) for n in ast.walk(st)}
+        if any(isinstance(n, ast.Name) and n.id == x and id(n) not in inside for n in ast.walk(fn)):
+            return None
+        chain = list(st.orelse)
+        for v in reversed(vals):
+            ren = _Renamer({x: ast.Constant(value=v)})
+            chain = [ast.copy_location(ast.If(test=ren.visit(copy.deepcopy(inner.test)),
+                                              body=[ren.visit(copy.deepcopy(b)) for b in B], orelse=chain), st)]
+        for n in ast.walk(chain[0]):
+            if not hasattr(n, "lineno"):
+                ast.copy_location(n, st)
+        return chain
+
+    def walk(stmts):
+        out = []
+        for st in stmts:
+            for fld in ("body", "orelse", "finalbody"):
+                if isinstance(getattr(st, fld, None), list) and not isinstance(st, (ast.FunctionDef, ast.ClassDef)):
+                    setattr(st, fld, walk(getattr(st, fld)))
+            for h in getattr(st, "handlers", []) or []:
+                h.body = walk(h.body)
+            rep = unroll(st)
+            out.extend(rep if rep is not None else [st])
+        return out
+    fn.body = walk(fn.body)
+    return fn
+
+
 def x4_normalise(fn, globs=None, owner=None):
     if globs is not None:
         fn = _inline_helpers(fn, globs, owner=owner)
+        fn = _x8_unroll_for_else(fn, globs)              # x8: N10
     fn = _X4Normaliser(fn).visit(fn)
+    fn = _x8_fold_fresh_object(fn)                       # x8: N8
     ast.fix_missing_locations(fn)
     return fn
 
@@ -2246,7 +2464,7 @@ class Fn:
                 lv = self.val(l)
                 special = self.x3_in(lv, r)
                 if special is None:
-                    special = self.x4_in_constant(lv, r)          # x9: a named constant set in a value context (`a in S and b`)
+                    special = self.x4_in_constant(lv, r)          # x8 / x9: a named constant set in a value context (`a in S and b`)
                 if special is not None:
                     neg = "!" if isinstance(op, ast.NotIn) else ""
                     return False, f"(do pure (PyVal.bool ({neg}(← {special}))))"
@@ -2678,6 +2896,14 @@ class Fn:
         pat = self.globals[f.value.id]
         key = (self.pyfunc.__module__, f.value.id)
         import re as _re
+        # x8: the project-name test of `parse_wheel_filename` through a precompiled pattern: names.py measures the one
+        # pattern call of that function that is neither an inline literal nor a pattern measured on its own
+        if f.attr in ("fullmatch", "match") and len(e.args) == 1 and key not in MEASURED_PATTERNS \
+                and _registered_regex(pat) is None \
+                and (self.pyfunc.__module__, self.pyfunc.__qualname__) in MEASURED_INLINE:
+            flag, targs = MEASURED_INLINE[(self.pyfunc.__module__, self.pyfunc.__qualname__)]
+            self.ctx.imports.add("PkgModel.PyRx")
+            return False, f"PyRx.match_class_star {flag} {targs} {self.val(e.args[0])}"
         if f.attr in ("match", "search") and len(e.args) == 1:
             name = _registered_regex(pat)
             if name is not None and not (pat.flags & _re.MULTILINE):
@@ -4260,6 +4486,9 @@ class Fn:
             if k is None and isinstance(args[0], ast.Call) and isinstance(args[0].func, ast.Name) and args[0].func.id == "map" \
                     and len(args[0].args) == 2 and isinstance(args[0].args[0], ast.Name):
                 v = self.globals.get(args[0].args[0].id)
+                k = v if inspect.isclass(v) and self.ctx.is_tracked(v) else None
+            if k is None and _x8_comp_ctor(args[0]) is not None and _x8_comp_ctor(args[0]) not in self.locals:      # --- x8
+                v = self.globals.get(_x8_comp_ctor(args[0]))
                 k = v if inspect.isclass(v) and self.ctx.is_tracked(v) else None
             if k is None and isinstance(args[0], ast.BoolOp) and isinstance(args[0].op, ast.Or) and all(
                     self.elem_simple(v) or (isinstance(v, ast.List) and not v.elts) for v in args[0].values):
@@ -6438,6 +6667,9 @@ class Ctx:
                         if isinstance(a, ast.Call) and isinstance(a.func, ast.Name) and a.func.id == "map" and len(a.args) == 2 \
                                 and isinstance(a.args[0], ast.Name):
                             g = init.__globals__.get(a.args[0].id)
+                            k = g if inspect.isclass(g) and self.is_tracked(g) else None
+                        elif _x8_comp_ctor(a) is not None:        # --- x8: `frozenset(K(x) for x in … [if …])` ≡ `frozenset(map(K, …))`
+                            g = init.__globals__.get(_x8_comp_ctor(a))
                             k = g if inspect.isclass(g) and self.is_tracked(g) else None
                         elif isinstance(a, ast.Name):
                             ann = next((p.annotation for p in fn.args.args + fn.args.kwonlyargs if p.arg == a.id), None)
